@@ -47,6 +47,7 @@ from dulwich.pack import (
     load_pack_index_file,
     write_pack_index,
 )
+from dulwich.protocol import ZERO_SHA
 from dulwich.refs import SymrefLoop
 from dulwich.repo import (
     BASE_DIRECTORIES,
@@ -345,8 +346,6 @@ class TransportRefsContainer(RefsContainer):
                 return header + f.read(40 - len(SYMREF))
 
     def _remove_packed_ref(self, name):
-        if self._packed_refs is None:
-            return
         # reread cached refs from disk, while holding the lock
 
         self._packed_refs = None
@@ -376,6 +375,18 @@ class TransportRefsContainer(RefsContainer):
             transport = self.worktree_transport
         transport.put_bytes(urlutils.quote_from_bytes(name), SYMREF + other + b"\n")
 
+    def _read_current_ref(self, name):
+        """Return the value to compare an expected old value with.
+
+        This is the contents of the loose ref if there is one, otherwise the
+        packed value; a ref that does not exist compares equal to ZERO_SHA.
+        Symbolic references are not followed.
+        """
+        orig_ref = self.read_loose_ref(name)
+        if orig_ref is None:
+            orig_ref = self.get_packed_refs().get(name, ZERO_SHA)
+        return orig_ref
+
     def set_if_equals(self, name, old_ref, new_ref):
         """Set a refname to new_ref only if it currently equals old_ref.
 
@@ -394,6 +405,8 @@ class TransportRefsContainer(RefsContainer):
             realname = realnames[-1]
         except (KeyError, IndexError, SymrefLoop):
             realname = name
+        if old_ref is not None and self._read_current_ref(realname) != old_ref:
+            return False
         if realname == b"HEAD":
             transport = self.worktree_transport
         else:
@@ -440,6 +453,8 @@ class TransportRefsContainer(RefsContainer):
         :return: True if the delete was successful, False otherwise.
         """
         self._check_refname(name)
+        if old_ref is not None and self._read_current_ref(name) != old_ref:
+            return False
         # may only be packed
         transport = self.worktree_transport if name == b"HEAD" else self.transport
         with contextlib.suppress(NoSuchFile):
